@@ -144,13 +144,18 @@ theorem valueDiags_complete (s : RSchema) (vars : List RVarDef) : ∀ (k : Nat) 
         simp only [RVal.vars] at hn
         obtain ⟨x, hx, hnx⟩ := (mem_varsList n xs).mp hn
         simp only at h hl
+        have hdx := depth_le_depthList xs x hx
+        simp only [RVal.depth] at hd
         by_cases ha : acceptsList ty kind = true
-        · by_cases hi : kind.isInput = true
-          · simp only [ha, hi, Bool.not_true, Bool.false_eq_true, if_false, if_true, List.flatMap_eq_nil_iff] at h
-            have hdx := depth_le_depthList xs x hx
-            simp only [RVal.depth] at hd
-            exact ih _ x (by omega) (hl x hx) (h x hx) n hnx
-          · simp [ha, hi] at h
+        · by_cases hlist : ty.isList = true
+          · by_cases hi : kind.isInput = true
+            · simp only [ha, hi, hlist, Bool.not_true, Bool.false_eq_true, if_false, if_true, List.flatMap_eq_nil_iff] at h
+              exact ih _ x (by omega) (hl x hx) (h x hx) n hnx
+            · simp [ha, hi, hlist] at h
+          · -- a list literal at a non-list custom scalar: opaque (fix 115f905)
+            have hlf : ty.isList = false := by simpa using hlist
+            simp only [ha, hlf, Bool.not_false, Bool.not_true, Bool.false_eq_true, if_true, if_false, List.flatMap_eq_nil_iff] at h
+            exact opaqueVars_complete vars k x (by omega) (h x hx) n hnx
         · simp [ha] at h
       | obj kvs =>
         simp only [RVal.vars] at hn
